@@ -80,6 +80,22 @@ theorem forRange_list {α σ : Type} (l : List α) (body : Nat → σ → σ) (f
     have := h (i + 1) (by simp; omega) s
     simpa [Nat.add_assoc, Nat.add_comm 1 i] using this
 
+/-- … with an invariant under which the body is the list step -/
+theorem forRange_list_inv {α σ : Type} (Inv : σ → Prop) (l : List α) (body : Nat → σ → σ) (f : σ → α → σ) (k : Nat) (s : σ)
+    (h0 : Inv s) (h : ∀ i (hi : i < l.length) s, Inv s → body (k + i) s = f s l[i] ∧ Inv (f s l[i])) :
+    forRange body l.length k s = l.foldl f s ∧ Inv (l.foldl f s) := by
+  induction l generalizing k s with
+  | nil => exact ⟨rfl, h0⟩
+  | cons x xs ih =>
+    simp only [List.length_cons, forRange, List.foldl_cons]
+    have hx := h 0 (by simp) s h0
+    simp only [Nat.add_zero, List.getElem_cons_zero] at hx
+    rw [hx.1]
+    apply ih (k + 1) (f s x) hx.2
+    intro i hi s' hs'
+    have := h (i + 1) (by simp; omega) s' hs'
+    simpa [Nat.add_assoc, Nat.add_comm 1 i] using this
+
 /-! ### `forEach` -/
 
 theorem forEach_eq_foldl {α σ : Type} (body : α → σ → σ) (l : List α) (s : σ) :
